@@ -61,11 +61,10 @@ class Bracket:
 def check(tr):
     scen = tr.scen
     kind = scen["kind"]
-    if kind == "dehb":
-        return check_dehb(tr)
-    if kind not in SYNC:
+    dehb = kind == "dehb"
+    if kind not in SYNC and not dehb:
         return []
-    out = []
+    out = check_dehb(tr) if dehb else []
     s = scen["scheduler"]
     mode = s["mode"]
     metric = scen["metrics"][0]
@@ -75,6 +74,10 @@ def check(tr):
     systems = [[(int(a), int(b)) for a, b in br] for br in info_rungs]
     if kind != "sync_hb_custom":
         ref = geometric(s["grace_period"], s["max_t"], s["reduction_factor"], s.get("brackets"))
+        if dehb:
+            # documented: all DEHB brackets derive from the first one, rung sizes depend on the level only
+            first = geometric(s["grace_period"], s["max_t"], s["reduction_factor"], None)[0]
+            ref = [first[o:] for o in range(len(first) if s.get("brackets") is None else min(s["brackets"], len(first)))]
         if ref != systems:
             out.append(V("C05", "R0.rung_system", tr, "geometric rung system %s differs from the documented formula %s" % (systems, ref), None))
             return out
@@ -134,8 +137,12 @@ def check(tr):
                     may = set(failed)
                     if failed:
                         probes["probe.sync_failed_fill_next_rung"] = probes.get("probe.sync_failed_fill_next_rung", 0) + 1
-                b.allowed = (must, may)
+                b.allowed = (must, may) if not (dehb and b.id > 0) else None  # DEHB: later brackets evolve new trials
             probes["probe.sync_rungs_completed"] = probes.get("probe.sync_rungs_completed", 0) + 1
+            if dehb:
+                probes["probe.dehb_rungs_completed"] = probes.get("probe.dehb_rungs_completed", 0) + 1
+                if b.id > 0:
+                    probes["probe.dehb_later_bracket_rungs_completed"] = probes.get("probe.dehb_later_bracket_rungs_completed", 0) + 1
             if b.id == primary:
                 while brackets[primary].complete() and primary < len(brackets) - 1:
                     primary += 1
@@ -155,7 +162,7 @@ def check(tr):
                 # legal only when the searcher cannot produce a configuration any more
                 space_exhausted = True
                 b = next_job()
-                if b.cur == 0:
+                if b.cur == 0 or dehb:
                     # the library marks the slot as failed so that the bracket is not blocked
                     b.handed += 1
                     record(b, "none%d" % c["s0"], float("nan"), c["s0"])
@@ -164,7 +171,7 @@ def check(tr):
             nsug += 1
             b = next_job()
             if ret["new"]:
-                if b.cur != 0:
+                if b.cur != 0 and not (dehb and b.id > 0):
                     bad("R4.new_instead_of_resume", "new trial %s started while bracket %d waits to resume promoted trials %s" % (
                         t, b.id, sorted((b.allowed[0] | b.allowed[1]) - b.resumed)), c["s0"])
                     continue
@@ -177,7 +184,7 @@ def check(tr):
                 slot_of[t] = b.id
             else:
                 T = ret["ckpt"]
-                if b.cur == 0:
+                if b.cur == 0 or (dehb and b.id > 0):
                     bad("R4.resume_instead_of_new", "trial %s resumed while bracket %d has free slots for new trials" % (T, b.id), c["s0"])
                     continue
                 must, may = b.allowed
@@ -205,8 +212,9 @@ def check(tr):
                 if d != "CONTINUE":
                     bad("R5.decision", "trial %s at %d below its rung level %d: %s" % (t, r, lvl, d), c["s0"])
             elif r == lvl:
-                if d != "PAUSE":
-                    bad("R5.decision", "trial %s reached its rung level %d: %s (expected PAUSE)" % (t, lvl, d), c["s0"])
+                exp = "STOP" if (dehb and b.id > 0) else "PAUSE"  # DEHB pauses (and later resumes) only in its first bracket
+                if d != exp:
+                    bad("R5.decision", "trial %s reached its rung level %d: %s (expected %s)" % (t, lvl, d, exp), c["s0"])
                 del slot_of[t]
                 record(b, t, float(c["result"][metric]), c["s0"])
         elif m == "on_trial_error":
